@@ -880,7 +880,7 @@ class IntervalInterp(object):
             node, st = work.pop()
             k = node.k
             self._cur_st = st
-            if k in ('stmt', 'decl', 'branch', 'ret') and not (k == 'decl' and node.static):
+            if k in ('stmt', 'decl', 'branch', 'ret', 'switch') and not (k == 'decl' and node.static):
                 pc = self.pending_call(fn, node, st, depth)
                 if pc is not None:
                     call, callee = pc
@@ -938,5 +938,27 @@ class IntervalInterp(object):
                 st.callvals = {}
                 exits.append((v, st, node))
             elif k == 'switch':
-                raise AnalysisBroken('%s: switch not supported by the interval interpreter' % self.fn.name)
+                self.exec_expr(node.e, st)
+                iv = self.ev(node.e, st)
+                key = self.key_of(self.unwrap(node.e))
+                cases = [lab[1] for m, lab in node.succ if isinstance(lab, tuple) and lab[0] == 'case']
+                for m, lab in node.succ:
+                    if isinstance(lab, tuple) and lab[0] == 'case':
+                        v = lab[1]
+                        if v is None:
+                            raise AnalysisBroken('%s: case label that is not a constant' % self.fn.name)
+                        if iv is not None and not (iv[0] <= v <= iv[1]):
+                            continue
+                        s2 = st.copy()
+                        if key is not None:
+                            s2.env[key] = (v, v)
+                        s2.callvals = {}
+                        work.append((m, s2))
+                    else:
+                        # default: reachable unless the selector's interval is covered by the case constants
+                        if iv is not None and iv[1] - iv[0] < 4096 and all(x in cases for x in range(iv[0], iv[1] + 1)):
+                            continue
+                        s2 = st.copy()
+                        s2.callvals = {}
+                        work.append((m, s2))
         return exits
